@@ -80,12 +80,12 @@ func keys() *keyring {
 
 // tokSpec describes an ID token to mint.
 type tokSpec struct {
-	Mode     string // good foreign none hs256 tamperPayload tamperSig stripSig nokid wrongkid nested garbage
-	Exp      int64  // unix seconds; 0 = no exp claim
-	Aud      any    // string, []string or nil
-	Nonce    any    // string, number, nil (absent)...
-	Sub      string
-	Extra    string // marker to make token strings unique
+	Mode  string // good foreign none hs256 tamperPayload tamperSig stripSig nokid wrongkid nested garbage
+	Exp   int64  // unix seconds; 0 = no exp claim
+	Aud   any    // string, []string or nil
+	Nonce any    // string, number, nil (absent)...
+	Sub   string
+	Extra string // marker to make token strings unique
 }
 
 func mintToken(s tokSpec) string {
@@ -292,12 +292,12 @@ type idpRecord struct {
 }
 
 type fakeIDP struct {
-	rec  *recorder
-	srv  *httptest.Server
-	mu   sync.Mutex
-	next idpAnswer
-	recs []idpRecord
-	gate func(what string) // optional: called when a request arrives (controlled scheduling)
+	rec      *recorder
+	srv      *httptest.Server
+	mu       sync.Mutex
+	next     idpAnswer
+	recs     []idpRecord
+	gate     func(what string)     // optional: called when a request arrives (controlled scheduling)
 	disc     map[string]discAnswer // discovery documents by path
 	discGets map[string]int
 }
@@ -377,14 +377,14 @@ func (f *fakeIDP) take() []idpRecord {
 
 // spyStore wraps the real store: records calls, injects faults (1 = fail before the call, 2 = fail after it).
 type spyCall struct {
-	Op     string
-	ID     string
-	Tok    *oidc.TokenResponse
-	Auth   *oidc.AuthorizationState
-	Err    bool
-	GotTok *oidc.TokenResponse
+	Op      string
+	ID      string
+	Tok     *oidc.TokenResponse
+	Auth    *oidc.AuthorizationState
+	Err     bool
+	GotTok  *oidc.TokenResponse
 	GotAuth *oidc.AuthorizationState
-	Fault  int
+	Fault   int
 }
 
 type spyStore struct {
@@ -535,19 +535,19 @@ func (j *scriptedJWKS) Get(context.Context, *oidcv1.OIDCConfig) (jwk.Set, error)
 // ---------------------------------------------------------------- configuration of a world
 
 type hCfg struct {
-	ClientID, Secret         string
-	CallbackURI              string
-	AuthURI                  string
-	TokenPath                string // appended to the fake IdP base URL
-	Scopes                   []string
-	Prefix                   string
-	IDHeader, IDPreamble     string
-	Access                   bool
-	AccHeader, AccPreamble   string
-	Logout                   bool
-	LogoutPath, LogoutURI    string
-	Store                    string
-	Abs, Idle                time.Duration
+	ClientID, Secret       string
+	CallbackURI            string
+	AuthURI                string
+	TokenPath              string // appended to the fake IdP base URL
+	Scopes                 []string
+	Prefix                 string
+	IDHeader, IDPreamble   string
+	Access                 bool
+	AccHeader, AccPreamble string
+	Logout                 bool
+	LogoutPath, LogoutURI  string
+	Store                  string
+	Abs, Idle              time.Duration
 }
 
 func (c hCfg) proto(idpBase string) *oidcv1.OIDCConfig {
@@ -599,16 +599,16 @@ func (c hCfg) cookieName() string {
 // ---------------------------------------------------------------- one request against the world
 
 type hReq struct {
-	NoHTTP bool     `json:"no_http,omitempty"`
-	Scheme string   `json:"scheme"`
-	Host   string   `json:"host"`
-	Path   string   `json:"path"`
-	Query  string   `json:"query,omitempty"`
-	Cookie string   `json:"cookie,omitempty"`
+	NoHTTP bool      `json:"no_http,omitempty"`
+	Scheme string    `json:"scheme"`
+	Host   string    `json:"host"`
+	Path   string    `json:"path"`
+	Query  string    `json:"query,omitempty"`
+	Cookie string    `json:"cookie,omitempty"`
 	Gen    [4]string `json:"gen"` // sid nonce state verifier
 	IDP    idpAnswer `json:"idp"`
-	KeysOK bool     `json:"keys_ok"`
-	Faults []int    `json:"faults,omitempty"`
+	KeysOK bool      `json:"keys_ok"`
+	Faults []int     `json:"faults,omitempty"`
 }
 
 func (q hReq) wire() string {
@@ -625,14 +625,14 @@ func (q hReq) wire() string {
 
 // hObs is everything observed while the real code served one request.
 type hObs struct {
-	Resp    *envoy.CheckResponse
-	Err     error
-	Panic   any
-	Calls   []spyCall
-	IDP     []idpRecord
-	Keys    int
-	Now     time.Time
-	Trace   string
+	Resp  *envoy.CheckResponse
+	Err   error
+	Panic any
+	Calls []spyCall
+	IDP   []idpRecord
+	Keys  int
+	Now   time.Time
+	Trace string
 }
 
 type hWorld struct {
